@@ -145,15 +145,20 @@ CLAIMS["C11"] = dict(
          "externally used Lock, wait_for.",
     technique="Lean 4 invariant proofs over LTS models + trace validation against the real code")
 CLAIMS["C12"] = dict(
-    text="16 Lean theorems over all event lists of the memory-object-stream LTS (any buffer size, clones, "
+    text="20 Lean theorems over all event lists of the memory-object-stream LTS (any buffer size, clones, "
          "blocking and nowait calls, cancellations): every offered item is in exactly one of sender's slot, "
          "buffer, receiver's slot, delivered, rejected, lost; delivered items are distinct and were offered; "
          "an accepted send's item is inside the stream or delivered; FIFO (entered = handed ++ buffer), "
          "blocked senders/receivers served from the head skipping only receivers with a pending "
          "cancellation; |buffer| <= max_buffer_size; a cancelled receive changes only its own queue entry; "
          "under scope/deadline cancellation nothing is ever lost (C12_scope_cancel_never_loses) and an "
-         "interrupted send is delivered at most once. One clause (per-sender sublist order) is "
-         "C12_order_partial and is decided by the oracle on every run.",
+         "interrupted send is delivered at most once. Per-sender order (Props/C12order.lean, C12_order): for "
+         "every task, the items it offered enter the stream, are handed to receivers and wait in the buffer "
+         "in the order it offered them (a sublist of its offer sequence: rejected and cancelled sends never "
+         "enter), each item enters at most once, and a sender's in-flight item is its latest offer; together "
+         "with FIFO this is the full order clause (the earlier C12_order_partial is superseded). Which "
+         "receiver obtained which item is not a model field; per-(sender, receiver) order is decided by the "
+         "oracle on every run.",
     design="5/C12",
     note=BASE_NOTE + "The no-loss claim is proved over runs without a native Task.cancel() landing between "
          "hand-over and wake-up; C12_native_cancel_witness shows the restriction is necessary (DESIGN "
